@@ -347,6 +347,15 @@ struct Gen
         unsigned logn = r.chance(1, 2) ? slot_log : (unsigned)r.range(0, slot_log);
         o.n = (uint64_t)1 << logn;
         o.ncols = pick_ncols(kind != K_EXTEND && kind != K_ROUNDTRIP);
+        if (lim.huge && r.chance(1, 300))
+        {
+            // far beyond the usual bounds: index arithmetic in narrower types, tables indexed by log2(size) > 12
+            logn = (unsigned)r.range(13, 16);
+            o.n = (uint64_t)1 << logn;
+            o.maxn = r.chance(1, 2) ? o.n : o.n << r.range(1, 2);
+            o.obj = -1;
+            o.ncols = r.range(1, 2);
+        }
         // keep wide matrices small in rows so that a run stays cheap
         while (o.ncols > 40 && logn > 0 && (o.n * o.ncols > (lim.maxlog > 8 ? 131072u : 16384u)))
         {
@@ -410,7 +419,13 @@ struct Gen
         static const uint64_t c[] = {0, 1, 2, 3, 4, 5, 6, 7, 8, 9, 10, 11, 12, 13, 15, 16, 17, 24, 25, 33, 40};
         o.cols = r.pick(c);
         o.dim = r.chance(2, 3) ? 1 : r.range(2, 3);
-        if (r.chance(1, 14))
+        if (lim.huge && r.chance(1, 300))
+        {
+            o.rows = (uint64_t)1 << r.range(9, 11);
+            o.cols = r.range(0, 9);
+            o.dim = 1;
+        }
+        else if (r.chance(1, 14))
         {
             // long rows (many sponge blocks; thresholds such as 64/128/256 elements per row)
             static const uint64_t wide[] = {64, 100, 127, 128, 129, 200, 255, 256, 257, 400};
